@@ -78,7 +78,7 @@ class Gen:
         for i in range(nlines):
             line = ' '.join(self.inline())
             if i < nlines - 1 and self.inline_level >= 1 and self.rng.random() < 0.2:
-                line += self.pick('hardbreak', ['  ', '\\'])
+                line += self.pick('hardbreak', ['  ', '\\', ' \\', '   '])
             lines.append(line)
         return lines
 
